@@ -187,3 +187,16 @@ Theorem c14_lfu_window_overflow : forall w p ww pw cap w' p' ww' pw',
   ww' = wsum w' /\ (pw' = pw + (wsum w - wsum w'))%N /\ ((ww' <= cap)%N \/ w' = []).
 Proof. exact lfu_win_overflow_rule. Qed.
 Print Assumptions c14_lfu_window_overflow.
+
+(* the count-min sketch behind [lfu_freq]: counting a hash raises its own estimate by exactly one (up to the cap) and never
+   lowers any other hash's estimate - whatever the bucket function (MurmurHash3 in the implementation) *)
+Theorem c14_sketch_counts_one : forall rows bs cap,
+  Forall2 (fun r b => (b < length r)%nat) rows bs ->
+  sk_estimate (sk_update rows bs) bs cap = N.min cap (sk_estimate rows bs cap + 1).
+Proof. exact sk_update_counts_one. Qed.
+Print Assumptions c14_sketch_counts_one.
+
+Theorem c14_sketch_never_lowers : forall rows bs bs' acc,
+  (sk_estimate rows bs' acc <= sk_estimate (sk_update rows bs) bs' acc)%N.
+Proof. exact sk_update_never_lowers. Qed.
+Print Assumptions c14_sketch_never_lowers.
